@@ -67,6 +67,25 @@ func contentPlan(prop string, tier string, root *simcore.RNG, sinks []string, nq
 		}
 		pl.scenarios = append(pl.scenarios, sc)
 	}
+	// slow renderers in real time (the library has no clock seam): the stream pauses
+	// after its first batch. Quick: one 11 s pause; thorough: several, up to 65 s.
+	stalls := []int{11000}
+	if tier == "thorough" {
+		stalls = []int{11000, 11000, 31000, 65000}
+	}
+	for _, ms := range stalls {
+		r := root.Fork()
+		sink := pick(r, sinks)
+		kind := "script3"
+		if sink == "dxf" || sink == "svg" {
+			kind = "script2"
+		}
+		cnt := 700 + r.Intn(600)
+		j := Job{ID: 1, Kind: kind, Sink: sink, N: cnt, Coords: "wild-small", CoordSeed: r.Uint64(), StallMs: ms,
+			Batches: [][]Run{{{300, 1}, {5, (cnt - 300) / 5}}}}
+		pl.scenarios = append(pl.scenarios, &Scenario{Prop: prop, Family: "content", Seed: r.Uint64(), Env: genEnv(r), Groups: [][]Job{{j}},
+			Sites: activeSites(r, sink, true), Sched: Sched{Policy: "fifo"}, Note: "real-time-stall"})
+	}
 	pl.nontriv = func(o *runOut) (bool, string) {
 		if o.res == nil {
 			return false, ""
